@@ -42,6 +42,11 @@ def run(ctx):
         tr = ctx.drive(drive, ["--cases", p, "--n", "0"], "trace-replay.ndjson")
         ctx.monitor("replay", "C01", "Trace_C01.tla", "Trace_C01.cfg", tr)
         return ctx.finish()
+    # algorithm layer: add_ops.rs at word level (2-bit words), every ownership variant, exhaustive
+    maxv = ctx.pick(90, 300)
+    cfg = fw.write_cfg(ctx.path("MC_IntAddAlg.cfg"), invariants=["UnsignedOK", "SignedOK"], constants={"W": 2, "MaxV": maxv})
+    ctx.mc("mc-addalg", "C01", "IntAddAlg.tla", cfg)
+    ctx.scope.update({"IntAddAlg": {"W": 2, "MaxV": maxv}})
     # spec -> impl: the partition enumerated by TLC
     classes = ctx.pick([0, 1, 2, 3, 4, 23, 24, 25, 26, 32, 33], [0, 1, 2, 3, 4, 5, 23, 24, 25, 26, 31, 32, 33, 34, 64, 97])
     k = ctx.pick(2, 4)
@@ -59,7 +64,7 @@ def run(ctx):
     return ctx.finish(
         rule="one event = one operation on one operand pair executed in every call form; distinct = distinct "
              "(op, types, operands, outcomes); non-trivial = no zero operand",
-        explanation="TLC enumerates op x type pair x size-class pair x pattern (Gen_C01) and validates every recorded call "
+        explanation="IntAddAlg (add_ops.rs at word level, all ownership variants) model-checked exhaustively; TLC enumerates op x type pair x size-class pair x pattern (Gen_C01) and validates every recorded call "
                     "against BigInt (Trace_C01).",
         required_cover=["op:add", "op:sub", "op:mul", "op:sqr", "op:cubic", "op:pow", "mul:schoolbook", "mul:karatsuba",
                         "carry-grows", "cancel-shrinks", "heap-to-inline", "panic", "primitive-forms",
